@@ -49,6 +49,10 @@ def strs_in(b, blocks=None):
 def run(ctx):
     from .c16 import complete_write_rules
     complete_write_rules(ctx)
+    # files of any conforming writer must be readable: the blocks are decoded under the default limits, not under the
+    # tightened configuration of the header (shared with C05)
+    from .c05 import blockcfg_rule
+    blockcfg_rule(ctx)
     f = ctx.f
     # ---- MAGIC
     hc = f.consts.get(P + 'HEADER_CONST')
